@@ -46,6 +46,14 @@ def run_number(r):
         ser2 = sheet.cssRules[0].style.getPropertyValue("left")
         s2 = cssutils.parseString(sheet.cssText)
         reser = s2.cssRules[0].style.getPropertyValue("left")
+        # the same literal given to a value object that held another one (with another unit, or with one at all)
+        for prior in ("3px", "7", "50%"):
+            w = css.PropertyValue(prior)[0]
+            _ = (w.value, w.dimension, w.cssText)
+            w.cssText = text
+            if (w.value, w.dimension, w.cssText, w.type) != (v.value, v.dimension, v.cssText, v.type):
+                return {"out": "EXC:ReassignedValueDiffersFromFresh", "text": text, "ser": split_literal(w.cssText), "reser": split_literal(reser),
+                        "typed": dict(float_digits(v.value), unit=""), "dimension": (w.dimension or "").lower(), "sertext": w.cssText}
         return {"out": "ok" if ser == ser2 else "EXC:SheetAndValueDisagree", "text": text, "ser": split_literal(ser), "reser": split_literal(reser),
                 "typed": dict(float_digits(v.value), unit=""), "dimension": (v.dimension or "").lower(), "sertext": ser}
     out, o = outcome(f)
@@ -100,6 +108,8 @@ def colour_forms(r):
         prim = {(255, 0, 0): 0, (255, 255, 0): 60, (0, 255, 0): 120, (0, 255, 255): 180, (0, 0, 255): 240, (255, 0, 255): 300}
         if (R, G, B) in prim:
             forms += ["hsl(%d, 100%%, 50%%)" % prim[(R, G, B)], "hsla(%d,100%%,50%%,1)" % prim[(R, G, B)]]
+            # the hue is an angle: it wraps round the colour circle
+            forms += ["hsl(%d, 100%%, 50%%)" % (prim[(R, G, B)] + 360), "hsl(%d, 100%%, 50%%)" % (prim[(R, G, B)] - 360), "hsla(%d,100%%,50%%,1)" % (prim[(R, G, B)] + 720)]
     else:
         forms += ["rgba(%d, %d, %d, %s)" % (R, G, B, a), "rgba(%s,%s,%s,%s)" % (pct(R), pct(G), pct(B), a)]
         if R == G == B:
@@ -141,6 +151,19 @@ def run_list(r, rid):
                 comps.append(it.value.cssText)
                 prev_val = True
         ser = pv.cssText
+        # the same text given to an object that held (and had been asked for) another value: its components are those of the new text
+        old = css.PropertyValue("1px solid red")
+        n0, first = len(old), [v.cssText for v in old]
+        old.cssText = text
+        if [v.cssText for v in old] != [v.cssText for v in pv] or len(old) != len(pv) or old.length != pv.length or old.cssText != ser:
+            return {"out": "ReassignedValueKeepsOldComponents", "text": text, "comps": [v.cssText for v in old], "ser": old.cssText}
+        st = css.CSSStyleDeclaration(cssText="margin: 1px 2px")
+        pv2 = st.getProperty("margin").propertyValue
+        n1 = len(pv2)
+        st.setProperty("margin", text)
+        pv3 = st.getProperty("margin").propertyValue
+        if [v.cssText for v in pv3] != [v.cssText for v in pv]:
+            return {"out": "ReassignedPropertyKeepsOldComponents", "text": text, "comps": [v.cssText for v in pv3], "ser": pv3.cssText}
         return {"out": "ok", "text": text, "comps": comps, "ser": ser}
     out, o = outcome(f)
     return o if out == "ok" else {"out": out, "text": text, "comps": [], "ser": ""}
